@@ -176,6 +176,16 @@ class SymInputs(_Base):
         self.ctx.add(z3.And(v >= 0, v < 2**31))
         return shims.SymDate(SInt(v))
 
+    def shaped(self, name: str, rank: int, dt: str = "<f4"):
+        """ndarray of the given rank whose extents are arbitrary non-negative ints."""
+        ext = []
+        for k in range(rank):
+            v = z3.Int(f"{name}.dim{k}")
+            self.vars[f"{name}.dim{k}"] = ("int", v)
+            self.ctx.add(z3.And(v >= 0, v <= 2**20))
+            ext.append(SInt(v))
+        return symnp.ShapeOnlyArray.make(ext, dt)
+
     def bool(self, name: str):
         v = z3.Bool(name)
         self.vars[name] = ("bool", v)
@@ -610,6 +620,10 @@ class ConcInputs(_Base):
 
     def date(self, name: str):
         return _rdt.datetime.fromtimestamp(int(self._get(name, 1_000_000_000)))
+
+    def shaped(self, name: str, rank: int, dt: str = "<f4"):
+        shape = tuple(int(self._get(f"{name}.dim{k}", 0)) for k in range(rank))
+        return _rnp.broadcast_to(_rnp.zeros((), dtype=dt), shape)
 
     def bool(self, name: str):
         return bool(self._get(name, False))
